@@ -10,7 +10,7 @@ POL_q == {RI(-1), Zero, R(1, 3)} POL_full == {RI(-1), R(-1, 2), Zero, R(1, 3), O
 ZM(n) == [fns |-> "ZM-VFNS", nfff |-> 4, nfzm |-> n]
 
 Pt(p, j, k, fl, n, s, r, o, pl, ck, e) ==
-  [proc |-> p, proj |-> j, kind |-> k, flav |-> fl, nf |-> n, s2w |-> s, r |-> r, omd |-> o, pol |-> pl, ckm |-> ck, rexp |-> e]
+  [proc |-> p, proj |-> j, kind |-> k, flav |-> fl, nf |-> n, s2w |-> s, r |-> r, omd |-> o, pol |-> pl, ckm |-> ck, rexp |-> e, tza |-> 1]
 Points0 ==
   {Pt(p, j, k, fl, n, s, r, o, pl, ck, 0) :
      p \in PROCS, j \in {11, -11, 12, -12}, k \in KINDS, fl \in FLAVS, n \in NFZM,
@@ -31,12 +31,20 @@ Canon(pt) == /\ (pt.proc # "CC" => pt.ckm = "generic")
 CellOf(pt) ==
   MkCell([proc |-> pt.proc, proj |-> pt.proj, s2w |-> pt.s2w, r |-> pt.r, omd |-> pt.omd, pol |-> pt.pol, pos |-> 0],
          CkmOf(pt.ckm), pt.kind, FamOf(pt.flav), HqOf(pt.flav), ZM(pt.nf), "full", 0, 0, One, One)
+\* tza = 1: the proton; tza = 3: a nucleus with Z/A = 1/3 (card: a dict listing A before Z, as a YAML dump does) - the parton model of
+\* a nucleus is the one of the proton with u and d (ubar and dbar) mixed, (Z f_p + (A - Z) f_n)/A with the neutron the u <-> d swap
+TextbookRow(c) == [p \in Pids |-> TextbookLO(c, p)]
+Expect(pt) == LET c == CellOf(pt) IN IF pt.tza = 1 THEN TextbookRow(c) ELSE Rotate(TextbookRow(c), One, RI(pt.tza))
 Obligation(pt) ==
   LET c == CellOf(pt) IN
   [pt |-> pt, ckm2 |-> CkmOf(pt.ckm), indomain |-> C02Domain(c),
-   expect |-> [i \in 1..13 |-> TextbookLO(c, PidSeq[i])]]
+   expect |-> [i \in 1..13 |-> Expect(pt)[PidSeq[i]]]]
+\* the nuclear points: one EW point per cell
+PointsNucl == {[q EXCEPT !.tza = 3] : q \in {q \in Points0 : Canon(q) /\ q.s2w = (CHOOSE s \in S2W : TRUE) /\ q.omd = (CHOOSE o \in OMD : TRUE)
+                                                              /\ q.pol = (CHOOSE pl \in POL : TRUE) /\ q.ckm = "generic"}}
 \* (the two point sets are filtered lazily and only the obligations are united: a union of the point sets themselves makes TLC
 \* normalise half a million records)
 ASSUME ndJsonSerialize(IOEnv.OUT, SetToSeq({Obligation(pt) : pt \in {q \in Points0 : Canon(q)}}
-                                            \cup {Obligation(pt) : pt \in {q \in PointsTiny : Canon(q)}}))
+                                            \cup {Obligation(pt) : pt \in {q \in PointsTiny : Canon(q)}}
+                                            \cup {Obligation(pt) : pt \in PointsNucl}))
 =============================================================================
